@@ -16,6 +16,9 @@ pub struct DbgError;
 #[derive(Clone, Copy)] pub struct Location { pub pc: RelocatedAddress, pub global_pc: GlobalAddress, pub pid: Pid }
 pub struct FrameSpan { pub ip: RelocatedAddress }
 pub struct Debugee;
+impl Debugee {
+    #[verifier::external_body] pub fn mapping_offset_for_pc(&self, pc: RelocatedAddress) -> (r: Result<usize, DbgError>) ensures r is Ok ==> r->Ok_0 == off_of(pc.0), { unimplemented!() }
+}
 pub struct ExplorationContext { pub loc: Location, pub frame: u32 }
 pub struct DwarfUnwinder<'a> { pub debugee: &'a Debugee }
 
@@ -29,6 +32,11 @@ pub open spec fn wf_stack(d: &Debugee, pid: Pid) -> bool {
     &&& cfas(d, pid).len() == frames(d, pid).len()
     &&& forall|i: int, j: int| 0 <= i < j < cfas(d, pid).len() ==> #[trigger] cfas(d, pid)[i] < #[trigger] cfas(d, pid)[j]
 }
+
+/// load offset of the object that contains a run-time address (C18.try_into_brkpt)
+pub uninterp spec fn off_of(a: usize) -> usize;
+/// a location is consistent when its file-relative pc belongs to ITS OWN object: global = pc - load offset of the object containing pc
+pub open spec fn loc_consistent(l: Location) -> bool { l.global_pc.0 == l.pc.0 - off_of(l.pc.0) }
 
 /// unwind state for frame number `depth` of the chain
 pub struct UnwindContext<'a> {
@@ -53,6 +61,7 @@ impl<'a> UnwindContext<'a> {
     #[verifier::external_body]
     pub fn next(previous_ucx: UnwindContext<'a>, ecx: &ExplorationContext) -> (r: Result<Option<UnwindContext<'a>>, DbgError>)
         requires previous_ucx.depth@ + 1 < frames(previous_ucx.debugee, previous_ucx.location.pid).len(),
+            loc_consistent(ecx.loc),   // CFI of the caller frame is looked up with ITS file-relative pc (C05.cfi_lookup)
         ensures r is Ok ==> r->Ok_0 is Some && r->Ok_0->Some_0.depth@ == previous_ucx.depth@ + 1
             && r->Ok_0->Some_0.debugee == previous_ucx.debugee && r->Ok_0->Some_0.location.pid == previous_ucx.location.pid
             && r->Ok_0->Some_0.cfa.0 == cfas(previous_ucx.debugee, previous_ucx.location.pid)[previous_ucx.depth@ + 1],
@@ -80,7 +89,9 @@ impl FrameSpan {
     pub fn new(debugee: &Debugee, location: Location) -> (r: Result<FrameSpan, DbgError>) ensures r is Ok ==> r->Ok_0.ip == location.pc { unimplemented!() }
 }
 impl RelocatedAddress {
-    #[verifier::external_body] pub fn into_global(self, d: &Debugee) -> (r: Result<GlobalAddress, DbgError>) { unimplemented!() }
+    #[verifier::external_body] pub fn into_global(self, d: &Debugee) -> (r: Result<GlobalAddress, DbgError>) ensures r is Ok ==> r->Ok_0.0 == self.0 - off_of(self.0), { unimplemented!() }
+    /// GlobalAddress(self.0 - offset) (Kani unit C18.reloc); panics on underflow in debug builds
+    #[verifier::external_body] pub fn remove_vas_region_offset(self, offset: usize) -> (r: GlobalAddress) requires offset <= self.0, ensures r.0 == self.0 - offset, { unimplemented!() }
 }
 
 /// recorder with std's HashSet::new / HashSet::insert contract
